@@ -3,7 +3,7 @@ from props.common import TRUSTED_BASE
 
 LEVEL_TEXT = ('Bounded symbolic model checking (CBMC) of the real probe-merging kernels: the on-demand-tablebase branch of TBProbe::tbProbe with the 50-move margin, '
               'for every ply, half-move clock, window and every distance-to-mate answer the generated table can give; and Evaluate::swindleScore over its whole input range. '
-              'How the search uses these results (root move choice, window narrowing inside negaScout) is outside the claim.')
+              'and the build/keep/drop state machine (updateTB, clear) of the table those probes consult.  How the search uses these results (root move choice, window narrowing inside negaScout) is outside the claim.')
 ASSUMPTIONS = ['TranspositionTable::probeDTM is a stub returning any answer of the form C12-O4 proves the real generator produces (mate in n>=1, mated in n>=0, draw), n <= 100',
                'external Gaviota/Syzygy tablebases absent (gtbMaxPieces = TBLargest = 0)', 'currentTime() stubbed to 0 (only feeds the probe-cost counter)',
                'ply in [0,200], half-move clock in [0,99], alpha<beta within [-32000,32000]', 'swindleScore: evalScore in [-32767,32767], distToWin in [-1000,1000]']
@@ -22,4 +22,18 @@ def build(tier):
         Ob('O2-swindle', u, 'h_swindle', 'swindleScore: |result| <= maxFrustrated, never a mate score, sign rules, below/inside the frustrated band, monotone',
            unwind=3, functions=['Evaluate::swindleScore (evaluate.cpp:184-197)', 'BitUtil::lastBit'], bounds='evalScore in [-32767,32767], distToWin in [-1000,1000] (two independent argument pairs for monotonicity)'),
     ]
-    return [u], obs
+    # "the engine has built its on-demand tablebase": the root-triggered build/keep/drop state machine of the table the probe above consults
+    # (same harness and obligations as C12-O5; here they guard that a probe never sees a stale, partial or wiped table)
+    import copy
+    from props import C12
+    units12, obs12 = C12.build(tier)
+    extra_units = []
+    for o in obs12:
+        if o.oid in ('L1-firstbit', 'L2-bitcount'):      # substitution lemmas of the tbinstall unit
+            obs.append(copy.copy(o))
+            if o.unit not in extra_units: extra_units.append(o.unit)
+        if o.oid.startswith('O5-updatetb') or o.oid == 'O5c-clear':
+            o2 = copy.copy(o); o2.oid = 'O3-' + o.oid[3:].lstrip('-'); o2.core = o.oid == 'O5c-clear' or o.core
+            obs.append(o2)
+            if o.unit not in extra_units: extra_units.append(o.unit)
+    return [u] + extra_units, obs
